@@ -37,8 +37,9 @@ Qed.
 Lemma all_metrics_shape B : all_metrics (map (fun x => DMetric (dk x)) B) = Some (map dk B).
 Proof. induction B as [|b B IH]; cbn [map all_metrics]; auto. rewrite IH. reflexivity. Qed.
 
-Theorem stream_log_ok_reflect x ML KL ML1 KL1 s :
-  s = concat (map enc (map mbody ML1 ++ map kbody KL1)) ->
+Theorem stream_log_ok_reflect x ML KL ML1 KL1 s p :
+  s = concat (map enc (map mbody ML1 ++ map kbody KL1)) ++ p ->
+  tail_ok p -> (x_stay x = true -> p = []) ->
   Forall item_ok KL1 ->
   Subseq ML1 ML -> Subseq KL1 KL ->
   Permutation (map dm ML) (x_log_metas x) ->
@@ -46,9 +47,10 @@ Theorem stream_log_ok_reflect x ML KL ML1 KL1 s :
   (x_stay x && x_full x = true -> ML1 = ML /\ KL1 = KL) ->
   stream_log_ok x s = true.
 Proof.
-  intros -> Ok S1 S2 P E Ex. unfold stream_log_ok.
-  rewrite frame_roundtrip.
-  assert ((if x_stay x then true else true) = true) as -> by (destruct (x_stay x); auto).
+  intros -> Tp Hp Ok S1 S2 P E Ex. unfold stream_log_ok.
+  rewrite split_frames_concat by exact Tp.
+  assert ((if x_stay x then match p with [] => true | _ :: _ => false end else true) = true) as ->.
+  { destruct (x_stay x); auto. rewrite (Hp eq_refl). auto. }
   rewrite decode_all_shape by auto. rewrite split_meta_shape, all_metrics_shape.
   rewrite map_length, <- (map_length mbody ML1), skipn_len_app. cbn [andb].
   destruct (x_stay x && x_full x) eqn:Exact.
